@@ -11,6 +11,10 @@
 // kind "raw": one byte string handed to validateCommand and to storeFSM.Apply (under
 // recover), together with what gogo/protobuf makes of it (VerifEnvelope).
 //
+// kind "persistfault": one snapshot attempt (Snapshot, Persist, raft's Cancel/Close) against a
+// sink with planted write / close faults, in memory and on a real raft.FileSnapshotStore; see
+// persist.go.
+//
 // kind "soak" (thorough tier only): three real meta services (hashicorp/raft over loopback)
 // with forced snapshots and restarts; see soak.go.
 package main
@@ -755,6 +759,12 @@ func main() {
 					panic(err)
 				}
 				runMembers(o, []MemberDesc{d}, "replay")
+			case "persistfault":
+				var d PFDesc
+				if err := json.Unmarshal(in.Desc, &d); err != nil {
+					panic(err)
+				}
+				runPersistFault(o, d, "replay")
 			case "soak":
 				var d SoakDesc
 				if err := json.Unmarshal(in.Desc, &d); err != nil {
@@ -769,6 +779,12 @@ func main() {
 	}
 	r := hx.NewRand(f.Seed)
 	designedRaw(o, r.Split())
+	// snapshot attempts under planted write / close faults (persist.go)
+	rpf := r.Split()
+	designedPersistFault(o)
+	for i := 0; i < f.N/4; i++ {
+		genPersistFault(o, rpf.Split())
+	}
 	// real meta services: join / remove / leave + re-join (monitor, both tiers)
 	runMembers(o, memberScenarios(0), "designed")
 	if f.Tier == "thorough" {
